@@ -465,6 +465,24 @@ func cborMutate(t *rapid.T, b []byte, label string) []byte {
 		return b
 	}
 	items := refcbor.Walk(it)
+	if rapid.IntRange(0, 2).Draw(t, label+"-keybyte") == 0 {
+		// one byte of a text string (map keys such as "cert", "ocsp", "sig", "authority" are text)
+		// altered in place: the entry is still well-formed but is no longer the key the parser
+		// looks for, so mandatory fields go missing / unknown keys appear
+		var texts []*refcbor.Item
+		for _, x := range items {
+			if x.Major == 3 && len(x.Content) > 0 && len(x.Content) <= 32 {
+				texts = append(texts, x)
+			}
+		}
+		if len(texts) > 0 {
+			x := rapid.SampledFrom(texts).Draw(t, label+"-text")
+			out := append([]byte{}, b...)
+			pos := x.HeadEnd + rapid.SampledFrom([]int{0, len(x.Content) - 1, len(x.Content) / 2}).Draw(t, label+"-pos")
+			out[pos] ^= rapid.SampledFrom([]byte{0x20, 0x01, 0x80}).Draw(t, label+"-xor")
+			return out
+		}
+	}
 	x := rapid.SampledFrom(items).Draw(t, label+"-item")
 	v := rapid.SampledFrom(hostile).Draw(t, label+"-val")
 	w := rapid.SampledFrom([]int{-1, 8}).Draw(t, label+"-width")
@@ -658,6 +676,15 @@ func genCase(t *rapid.T) Case {
 		a := smallBundleAsm(t)
 		file, slots := refbundle.Assemble(&a)
 		np := rapid.IntRange(1, 2).Draw(t, "np")
+		if rapid.IntRange(0, 4).Draw(t, "transfer") == 0 && len(slots) >= 2 {
+			// two fields edited together, sum unchanged modulo 2^64 (x moved from one to the other)
+			i := rapid.IntRange(0, len(slots)-2).Draw(t, "ta")
+			j := rapid.IntRange(i+1, len(slots)-1).Draw(t, "tb")
+			x := rapid.SampledFrom([]uint64{^uint64(0) - slots[i].Value, 1 << 63, 1 << 32, 1, -slots[i].Value, 1<<63 - slots[i].Value}).Draw(t, "tx")
+			file = refbundle.Patch(file, slots[i], slots[i].Value+x)
+			file = refbundle.Patch(file, slots[j], slots[j].Value-x)
+			np = 0
+		}
 		for i := 0; i < np; i++ {
 			s := rapid.SampledFrom(slots).Draw(t, "slot")
 			file = refbundle.Patch(file, s, rapid.SampledFrom(hostile).Draw(t, "sv"))
